@@ -234,6 +234,9 @@ pub const NETS: &[&str] = &[
     "share(merge2)",
     "merge2(.,concat2)",
     "combine2(filter,take1)",
+    "concat2(sh,sh)",
+    "concat2(fi,fi)",
+    "merge2(fi,fi)",
 ];
 
 /// Networks of several real operators over puppets: the protocol oracles (C01-C05, C17) are
@@ -281,6 +284,20 @@ fn build_net(name: &str) -> WorldRt {
             let c: Arc<Source<(i64, i64)>> =
                 Arc::new(callbag::combine((apply_unary(&Op::Filter(Pred::Odd), p[0].clone()), apply_unary(&Op::Take(1), p[1].clone()))));
             probe_world(c, rec_t2())
+        },
+        "concat2(sh,sh)" => {
+            // the same shared source listed twice: the second attach happens inside the terminal
+            // fan-out of the first run
+            let sh: Src = Arc::new(callbag::share(p[0].clone()));
+            probe_world(Arc::new(callbag::concat(b(vec![sh.clone(), sh]))), rec_i64())
+        },
+        "concat2(fi,fi)" => {
+            let fi: Src = Arc::new(callbag::from_iter(Xs(Arc::new(vec![1, 2]), false)));
+            probe_world(Arc::new(callbag::concat(b(vec![fi.clone(), fi]))), rec_i64())
+        },
+        "merge2(fi,fi)" => {
+            let fi: Src = Arc::new(callbag::from_iter(Xs(Arc::new(vec![1, 2]), false)));
+            probe_world(Arc::new(callbag::merge(b(vec![fi.clone(), fi]))), rec_i64())
         },
         other => panic!("unknown net {other}"),
     }
